@@ -244,6 +244,7 @@ retry_fetch_lv:
                 cmp_to_end = -1;
             }
         }
+        YAKUSHIMA_VERIF_HOOK(YAKUSHIMA_VERIF_LAYER, nullptr);
         goto next_layer; // NOLINT
     }
 
@@ -361,6 +362,7 @@ retry_from_root:
             }
             ctx->stack_pop();
             st = &ctx->stack_top(); // sync alias
+            YAKUSHIMA_VERIF_HOOK(YAKUSHIMA_VERIF_LAYER, nullptr);
             goto next_layer; // NOLINT // or jump to entry point of this function
         }
         status check_status{};
@@ -509,6 +511,7 @@ retry_after_fb:
             ctx->stack(child_kt, child, target_border, cmp_to_end,
                        {std::get<1>(child_border_node_and_v),
                         permutation(target_border->get_permutation().get_body()), 0});
+            YAKUSHIMA_VERIF_HOOK(YAKUSHIMA_VERIF_LAYER, nullptr);
             goto next_layer; // NOLINT
         } else {
             // hit value
